@@ -99,6 +99,26 @@ def _const(e):
         return True, e.value
     if isinstance(e, ast.UnaryOp) and isinstance(e.op, ast.USub) and isinstance(e.operand, ast.Constant):
         return True, -e.operand.value
+    if isinstance(e, ast.BinOp):
+        # closed arithmetic on constants (what remains of `(first + last) // 2` once a table row was substituted); the KIND of
+        # the result is kept: `/` gives a float also where the quotient is whole
+        (ok1, a), (ok2, b) = _const(e.left), _const(e.right)
+        if ok1 and ok2 and all(isinstance(v_, (int, float)) and not isinstance(v_, bool) for v_ in (a, b)):
+            try:
+                if isinstance(e.op, ast.Add):
+                    return True, a + b
+                if isinstance(e.op, ast.Sub):
+                    return True, a - b
+                if isinstance(e.op, ast.Mult):
+                    return True, a * b
+                if isinstance(e.op, ast.FloorDiv):
+                    return True, a // b
+                if isinstance(e.op, ast.Div):
+                    return True, a / b
+                if isinstance(e.op, ast.Mod):
+                    return True, a % b
+            except ZeroDivisionError:
+                return False, None
     return False, None
 
 
@@ -229,6 +249,10 @@ def branches(func_node, param):
         """returns True if control cannot fall out of stmts"""
         for i, s in enumerate(stmts):
             if isinstance(s, ast.Expr) and isinstance(s.value, ast.Constant):
+                continue
+            if isinstance(s, ast.Assert):
+                # not part of the function's behaviour: `python -O` removes the statement, the expression in it included --
+                # a refusal that lives inside an assert does not exist there
                 continue
             if isinstance(s, ast.If):
                 cur = s
@@ -492,6 +516,12 @@ def sym_int_table(func_node, param, resolve=None):
         if e is None:
             rows.append((region, ("return", None), ln, region))
             return
+        cases_ = lookup_cases(e, region, env, ln)
+        if cases_ is not None:
+            # return TABLE[<index>]: one row per looked-up element (out-of-range parts were made IndexError rows)
+            for sub_, elem_ in cases_:
+                rows.append((sub_, ("return", elem_), ln, sub_))
+            return
         if isinstance(e, ast.Name) and isinstance(env.get(e.id), Const):
             rows.append((region, ("return", env[e.id].value), ln, region))
             return
@@ -558,7 +588,8 @@ def sym_int_table(func_node, param, resolve=None):
                 return region
             if isinstance(s, ast.Expr) and isinstance(s.value, ast.Constant):
                 continue
-            if isinstance(s, ast.Pass):
+            if isinstance(s, (ast.Pass, ast.Assert)):
+                # (an assert is not behaviour: `python -O` removes it together with the expression inside)
                 continue
             if isinstance(s, ast.Assign) and len(s.targets) == 1:
                 tgt = s.targets[0]
